@@ -31,6 +31,7 @@ Record vsrc := mkSrc {
   s_unmod_test : string;              (* the test of that loop: "prop in kwargs" *)
   s_old_sources : list string;        (* data.get(..) or data.get(..): ["modified"; "created"] *)
   s_parse_precision : list string;    (* precision= of the two parse_into_datetime calls *)
+  s_parse_constraint : list string;   (* precision_constraint= of the two calls *)
   s_constraint_21 : string;  s_constraint_test : string;  s_constraint_else : string;   (* "min" if stix_version == "2.1" else "exact" *)
   s_supplied_cmp : cmp;               (* if new_modified <cmp> old_modified: raise InvalidValueError *)
   s_supplied_raises : string;
@@ -77,6 +78,7 @@ Definition model_cfg : vsrc := {|
   s_unmod_test := "prop in kwargs";
   s_old_sources := ["modified"; "created"];
   s_parse_precision := ["millisecond"; "millisecond"];
+  s_parse_constraint := ["precision_constraint"; "precision_constraint"];
   s_constraint_21 := "min"; s_constraint_test := "stix_version == '2.1'"; s_constraint_else := "exact";
   s_supplied_cmp := CLe; s_supplied_raises := "InvalidValueError";
   s_fudge_flag := "stix_version != '2.0'";
@@ -98,7 +100,7 @@ Definition strip (S : vsrc) : vsrc :=
      s_f20_cmp := s_f20_cmp S; s_f20_threshold := s_f20_threshold S; s_f20_push := s_f20_push S;
      s_i_check := 0; s_i_revoked := 0; s_i_copy := 0; s_i_unmod := 0; s_i_parse_old := 0; s_i_branch := 0; s_i_update := 0;
      s_unmod_lists := s_unmod_lists S; s_unmod_test := s_unmod_test S; s_old_sources := s_old_sources S;
-     s_parse_precision := s_parse_precision S;
+     s_parse_precision := s_parse_precision S; s_parse_constraint := s_parse_constraint S;
      s_constraint_21 := s_constraint_21 S; s_constraint_test := s_constraint_test S; s_constraint_else := s_constraint_else S;
      s_supplied_cmp := s_supplied_cmp S; s_supplied_raises := s_supplied_raises S;
      s_fudge_flag := s_fudge_flag S; s_clock := s_clock S; s_none_filter := s_none_filter S;
